@@ -47,11 +47,12 @@ pub fn batches(check: &str) -> Vec<Batch> {
             b("three-vars", { let mut o = GenOpts::base(&[Kind::Bdd, Kind::Bcdd]).emph(Quant, 14).emph(Subst, 14).emph(Order, 10); o.max_vars = 3; o.allow_names = false; o }, 2),
         ],
         "C05" => vec![
-            b("refcounts", GenOpts::base(&all_kinds()).emph(CloneH, 14).emph(DropH, 14).emph(Gc, 14).emph(Order, 6).emph(Subst, 6), 3),
+            b("refcounts", { let mut o = GenOpts::base(&all_kinds()).emph(CloneH, 14).emph(DropH, 14).emph(Gc, 14).emph(Order, 6).emph(Subst, 6).emph(Dddmp, 3); o.allow_dddmp = true; o }, 3),
             b("tight", { let mut o = GenOpts::base(&all_kinds()).emph(CloneH, 10).emph(DropH, 12).emph(Gc, 12); o.tight_pct = 100; o }, 2),
         ],
         "C06" => vec![
-            b("cache-history", GenOpts::base(&all_kinds()).emph(Binary, 12).emph(Rederive, 12).emph(Gc, 10).emph(Order, 8).emph(AddVars, 6).emph(Subst, 10).emph(Quant, 8).emph(DropH, 8), 1),
+            b("cache-history", GenOpts::base(&all_kinds()).emph(Binary, 12).emph(Rederive, 12).emph(Gc, 10).emph(Order, 8).emph(AddVars, 6).emph(Subst, 10).emph(Quant, 8).emph(DropH, 8), 3),
+            b("zbdd-cache", { let mut o = GenOpts::base(&[Kind::Zbdd]).emph(ZOps, 14).emph(Rederive, 10).emph(Gc, 6).emph(Order, 6).emph(AddVars, 6); o.allow_names = false; o }, 1),
         ],
         "C08" => vec![
             b("reorder-chains", { let mut o = GenOpts::base(&all_kinds()).emph(Order, 30).emph(Gc, 8).emph(DropH, 8); o.allow_names = false; o }, 3),
@@ -64,14 +65,14 @@ pub fn batches(check: &str) -> Vec<Batch> {
         "C10" => vec![b("mtbdd", { let mut o = GenOpts::base(&mt_kinds()).emph(Binary, 14).emph(Ite, 10).emph(Unary, 8).emph(Gc, 8).emph(Order, 6).emph(Observe, 8); o.allow_names = false; o }, 3),
                       b("mtbdd-tight-terminals", { let mut o = GenOpts::base(&mt_kinds()).emph(Binary, 14).emph(Gc, 10); o.tight_pct = 60; o.allow_names = false; o }, 1)],
         "C11" => vec![b("tdd", { let mut o = GenOpts::base(&[Kind::Tdd]).emph(Binary, 14).emph(Ite, 12).emph(Cof, 10).emph(Unary, 8).emph(Observe, 10).emph(Order, 6); o.allow_names = false; o }, 1)],
-        "C12" => vec![b("satcount", { let mut o = GenOpts::base(&bool_kinds()).emph(SatCount, 30).emph(Gc, 10).emph(Order, 10).emph(DropH, 10).emph(AddVars, 6).emph(Pick, 0); o.allow_names = false; o.max_vars = 8; o }, 1)],
+        "C12" => vec![b("satcount", { let mut o = GenOpts::base(&bool_kinds()).emph(SatCount, 30).emph(Gc, 10).emph(Order, 10).emph(DropH, 10).emph(AddVars, 6).emph(Pick, 0); o.allow_names = false; o.max_vars = 8; o.nat_ops = true; o }, 1)],
         "C13" => vec![
             b("pick", { let mut o = GenOpts::base(&bool_kinds()).emph(Pick, 24).emph(Leaf, 8).emph(Order, 8).emph(Gc, 4).emph(SatCount, 0); o.allow_names = false; o }, 3),
             b("pick-tight", { let mut o = GenOpts::base(&bool_kinds()).emph(Pick, 40); o.tight_pct = 100; o.allow_names = false; o }, 1),
         ],
         "C16" => vec![b("names", { let mut o = GenOpts::base(&all_kinds()).emph(Names, 40).emph(AddVars, 12).emph(Order, 6).emph(Gc, 4); o.max_vars = 8; o }, 1)],
         // C14 / C15 / C20 have their own drivers but share these generators
-        "C14" => vec![b("oom-targets", { let mut o = GenOpts::base(&all_kinds()).emph(Quant, 8).emph(Subst, 8).emph(Pick, 8).emph(Order, 0); o.max_len = 25; o.allow_names = false; o.allow_order = false; o }, 1)],
+        "C14" => vec![b("oom-targets", { let mut o = GenOpts::base(&all_kinds()).emph(Quant, 8).emph(Subst, 8).emph(Pick, 8).emph(Order, 0); o.max_len = 25; o.allow_names = false; o.allow_order = false; o.allow_dddmp = true; o }, 1)],
         "C15" => {
             let mk = |mode: u32| {
                 let mut ks = vec![Kind::Bdd, Kind::Bcdd, Kind::Zbdd];
